@@ -34,9 +34,10 @@ func main() {
 	stats := map[string]int{}
 	directed = *dir
 	switch suite {
-	case "hub", "genesis", "det":
+	case "hub", "genesis", "det", "blocks":
 		genesisMode = suite == "genesis"
 		detMode = suite == "det"
+		blocksMode = suite == "blocks"
 		for i := 0; i < *n; i++ {
 			if *only >= 0 && i != *only {
 				continue
